@@ -1,5 +1,6 @@
 import Mrpro.Model.Proto
 import Mrpro.Model.OpsND
+import Mrpro.Model.Fourier
 open Lean M M.Proto
 
 def getTrajComp (j : Json) (k : String) : Except String TrajComp := do
@@ -7,6 +8,48 @@ def getTrajComp (j : Json) (k : String) : Except String TrajComp := do
   let shape ← getNats o "shape"
   let vals ← getRats o "vals"
   pure ⟨shape, vals.toArray⟩
+
+def floatParams : FourierParams CFloat where
+  c := fun n => ⟨1.0 / Float.sqrt n.toFloat, 0.0⟩
+  tw := fun n t => CFloat.cis (-(2.0 * 3.141592653589793 * t.toFloat / n.toFloat))
+
+def tensorFJson (t : Tensor CFloat) : Json :=
+  Json.mkObj [("shape", natsJson t.shape), ("data", cfloatsJson t.toList)]
+
+/-- Fourier operators on IEEE doubles -/
+def linopF (j : Json) (x : Tensor CFloat) : Except String (Except ErrKind (Tensor CFloat)) := do
+  let name ← getStr j "name"
+  let adj ← getBool j "adj"
+  match name with
+  | "fft" =>
+      let dims ← getInts j "dim"
+      let sizes ← match j.getObjVal? "recon" with
+        | .ok Json.null | .error _ => pure none
+        | .ok _ => do let r ← getNats j "recon"; let e ← getNats j "enc"; pure (some (r, e))
+      pure (if adj then fastFourierAdj floatParams dims sizes x else fastFourierFwd floatParams dims sizes x)
+  | "fourier_cart" =>
+      -- x: [B, C, z, y, x] ; y: [B, C, k2, k1, k0]
+      let enc ← getNats j "enc"; let recon ← getNats j "recon"
+      let tshape ← getNats j "tshape"
+      let kz ← getTrajComp j "kz"; let ky ← getTrajComp j "ky"; let kx ← getTrajComp j "kx"
+      let tol : Rat := 1/1000
+      let flags := [kz.isOnGridOnly tol, ky.isOnGridOnly tol, kx.isOnGridOnly tol]
+      let fftDims : List Int := ((flags.zip [(-3 : Int), -2, -1]).filter (·.1)).map (·.2)
+      let pick := fun (l : List Nat) => ((flags.zip l).filter (·.1)).map (·.2)
+      let cs := cartSampInit (enc.getD 0 1) (enc.getD 1 1) (enc.getD 2 1) tshape kz ky kx tol
+      if adj then
+        pure (do
+          let b := x.shape.getD 0 1; let c := x.shape.getD 1 1
+          let g ← cartSampAdj cs ⟨[b, c, prodL (x.shape.drop 2)], x.get⟩
+          let g5 : Tensor CFloat := ⟨[b, c] ++ cs.grid, g.get⟩
+          fastFourierAdj floatParams fftDims (some (pick recon, pick enc)) g5.memo)
+      else
+        pure (do
+          let k ← fastFourierFwd floatParams fftDims (some (pick recon, pick enc)) x
+          let b := k.shape.getD 0 1; let c := k.shape.getD 1 1
+          let s ← cartSampFwd cs ⟨[b, c, prodL (k.shape.drop 2)], k.get⟩
+          pure ⟨[b, c] ++ tshape.drop 1, s.get⟩)
+  | _ => throw s!"unknown linopF {name}"
 
 /-- one structural linear operator (forward or adjoint code path) on exact complex data -/
 def linop (j : Json) (x : Tensor CRat) : Except String (Except ErrKind (Tensor CRat)) := do
@@ -65,6 +108,12 @@ def handle (j : Json) : Except String Json := do
         | .ok t => let t := t.memo; oshape := t.shape; ys := ys.push (cratsJson t.toList)
         | .error e => return errJson e
       pure (Json.mkObj [("shape", natsJson oshape), ("ys", Json.arr ys)])
+  | "linopf" =>
+      let shape ← getNats j "shape"
+      let x ← getCFloats j "x"
+      match ← linopF j (Tensor.ofList shape x) with
+      | .ok t => pure (tensorFJson t.memo)
+      | .error e => pure (errJson e)
   | "norm_dims" =>
       let ndim ← getNat j "ndim"; let dims ← getInts j "dims"
       pure (match dims.mapM (normIndex ndim) with
